@@ -493,3 +493,26 @@ def test_K13_index_reads_one_snapshot(tmp_path):
         assert reader.index(3) in (1, 2)
     finally:
         JSONCollection._load_from_resource = orig
+
+
+# --- K14 / K15: stand-alone demo scripts (separate processes: fresh resolver caches / forced thread schedule) ----------
+def _run_script(name):
+    import os
+    import subprocess
+    import sys
+
+    import synced_collections
+
+    root = os.path.dirname(os.path.dirname(os.path.abspath(synced_collections.__file__)))
+    env = dict(os.environ, PYTHONPATH=root)
+    return subprocess.run([sys.executable, os.path.join(os.path.dirname(os.path.abspath(__file__)), name)], env=env, capture_output=True, text=True, timeout=120)
+
+
+def test_K14_proxy_objects_do_not_prime_the_type_cache():
+    r = _run_script("k14_proxy_history.py")
+    assert r.returncode == 0, r.stdout + r.stderr
+
+
+def test_K15_reading_a_list_takes_no_collection_lock():
+    r = _run_script("k15_list_read_takes_lock.py")
+    assert r.returncode == 0, r.stdout + r.stderr
